@@ -280,3 +280,5 @@ PROP = Prop(
                  "every component has at least one finite replicate (the 'within the range of the "
                  "finite replicates' claim presupposes one)"],
 )
+
+RULE_EXTRA = ('replicates scaled by 1e-8..1e5 with purely relative tolerances; alphas 1e-12..1-1e-9; float32 / int64 / Fortran-ordered replicate arrays.')
